@@ -535,6 +535,11 @@ def _apply(world, op, st):
         i = next(j for j, ch in enumerate(v) if ch.swapcase() != ch)
         x.set(key, v.swapcase() if op["whole"] else v[:i] + v[i].swapcase() + v[i + 1:])
         res["cls"] = type(x).__name__
+        # Equality folds case by design for every plain-string arg except on value-carrying nodes. Judged are only nodes that ARE a
+        # quoted string-like literal, a JSON path part (verbatim text inside a string literal) or verbatim command text; a unit or
+        # keyword Var that some dialect happens to print inside quotes (DATE_ADD('DAY', ...)) is case-insensitive SQL.
+        res["case_judged"] = isinstance(x, (exp.Literal, exp.Identifier, exp.RawString, exp.ByteString, exp.UnicodeString, exp.National, exp.Heredoc,
+                                            exp.JSONPathPart, exp.Command))
         return res
 
     if k == "set_leaf":
@@ -1301,7 +1306,7 @@ def execute(record, state=None):
                 probes["sql_changed_edits"] += 1
                 # a case-only edit of an enum-like flag (Trim.position = 'leading') may change which keywords are printed: not judged;
                 # judged is a case-only edit whose whole visible effect is the text of a string literal / quoted identifier
-                judged = now_sql[0] != pre_sql[0] if k != "set_case" else (now_sql[0] == pre_sql[0] and now_sql[1] != pre_sql[1])
+                judged = now_sql[0] != pre_sql[0] if k != "set_case" else (bool(res.get("case_judged")) and now_sql[0] == pre_sql[0] and now_sql[1] != pre_sql[1])
                 if judged and type(mt) is type(snap) and inv.eq_preserving(mt, snap):
                     diff = next(((a_, b_) for a_, b_ in zip(pre_sql[1], now_sql[1]) if a_ != b_), None) if now_sql[0] == pre_sql[0] else (pre_sql[0][:100], now_sql[0][:100])
                     v = fail("I4-eq-sql", _opname(op), step, "after %s the SQL changed (%r -> %r) but the tree still compares equal to its pre-edit snapshot" % (_opname(op), diff[0], diff[1]))
